@@ -1,1 +1,114 @@
-From InvokeVerif Require Import Corr.C13Corr.
+(** C13 -- input-stream text reaches the command complete, in order, then EOF.
+    Statements only; proofs in Proofs/C13_stdin.v.
+    [wf_script]: data units are non-empty values (an empty value is the stream's
+    EOF signal, written [SEof]); "encodable": the text can be represented in the
+    effective encoding (otherwise the worker dies with UnicodeEncodeError --
+    outside the statement). *)
+From InvokeVerif Require Import Corr.C13Corr Proofs.C02_decode Proofs.C13_stdin.
+Local Open Scope N_scope.
+
+(** Each delivered unit is written to the command's stdin exactly once, in
+    order, encoded; the worker does not die. *)
+Theorem C13_forward_in_order_once :
+  forall m e pty echo s,
+    wf_script m e s = true ->
+    forallb (encodable e) (texts_of m e (deliverable false s)) = true ->
+    so_writes (handle_stdin m e pty echo false false s) =
+      map (enc_or_nil e) (texts_of m e (deliverable false s)) /\
+    so_died (handle_stdin m e pty echo false false s) = false.
+Proof. exact forward_in_order_once. Qed.
+
+(** The command's stdin is closed exactly once when the input stream is seen
+    exhausted and no pty is used; never with a pty; never otherwise. *)
+Theorem C13_close_once_on_eof :
+  forall m e pty echo s,
+    wf_script m e s = true ->
+    forallb (encodable e) (texts_of m e (deliverable false s)) = true ->
+    so_closes (handle_stdin m e pty echo false false s) =
+      (if pty then 0 else if eof_reached false s then 1 else 0)%nat.
+Proof. exact close_once_on_eof. Qed.
+
+(** Whatever was read before the command finished has been forwarded (the writes
+    start with exactly those units). *)
+Theorem C13_all_data_before_finish_delivered :
+  forall m e pty echo s,
+    wf_script m e s = true ->
+    forallb (encodable e) (texts_of m e (deliverable false s)) = true ->
+    exists rest,
+      so_writes (handle_stdin m e pty echo false false s) =
+      map (enc_or_nil e) (texts_of m e (before_finish s)) ++ rest.
+Proof. exact all_data_before_finish_delivered. Qed.
+
+(** Once the command has finished the worker leaves its loop (no guard at all:
+    also when it dies, for any script) ... *)
+Theorem C13_terminates_after_finish :
+  forall m e pty echo s closed fin,
+    fin || finishes s = true -> so_terminated (handle_stdin m e pty echo closed fin s) = true.
+Proof. exact terminates_after_finish. Qed.
+
+(** ... after at most (units already available) + 1 further reads. *)
+Theorem C13_reads_after_finish_bounded :
+  forall s, (reads_used true s <= List.length (deliverable true s) + 1)%nat.
+Proof. exact reads_after_finish_bounded. Qed.
+
+(** Echo: requested explicitly, or by default for terminal input without a pty
+    (finite table 3 x 2 x 2), and then exactly the forwarded text. *)
+Theorem C13_echo_table :
+  forall echo pty tty, echo_effective echo pty tty = echo_wanted echo pty tty.
+Proof. exact echo_table. Qed.
+
+Theorem C13_echo_text :
+  forall m e pty echo s,
+    wf_script m e s = true ->
+    forallb (encodable e) (texts_of m e (deliverable false s)) = true ->
+    so_echo (handle_stdin m e pty echo false false s) =
+      if echo then texts_of m e (deliverable false s) else [].
+Proof. exact echo_text. Qed.
+
+(** Input stream disabled: nothing forwarded, nothing closed, nothing echoed;
+    watcher responses still reach the command. *)
+Theorem C13_disabled_forwards_nothing :
+  forall e echo pty s resp,
+    stdin_model (mkSin e None echo pty s resp) = mkSobs (Some []) 0 [] true (encode e (List.concat resp)).
+Proof. exact disabled_forwards_nothing. Qed.
+
+(** Flagship: the model satisfies the executable spec on all inputs ...
+    FALSE at full strength: byte-mode streams are decoded one read at a time (F-C13) *)
+Theorem C13_stdin_meets_spec_refuted :
+  exists i, (match si_stream i with Some (m, _) => wf_script m (si_enc i) (si_script i) | None => true end) = true
+            /\ spec_in i (stdin_model i) = false.
+Proof. exact stdin_meets_spec_refuted. Qed.
+
+(** ... true for every text-mode stream and for byte-mode streams whose reads end
+    between characters (missing: a byte-mode read boundary inside a character) ... *)
+Theorem C13_stdin_meets_spec_partial :
+  forall i, stdin_guard i = true -> spec_in i (stdin_model i) = true.
+Proof. exact stdin_meets_spec_partial. Qed.
+
+(** ... in particular, unguarded (beyond well-formedness), for text-mode streams
+    and for a disabled input stream. *)
+Theorem C13_stdin_meets_spec_text_mode :
+  forall i,
+    (match si_stream i with
+     | Some (MBytes, _) => false
+     | Some (MText, _) => wf_script MText (si_enc i) (si_script i)
+     | None => true
+     end) = true -> spec_in i (stdin_model i) = true.
+Proof. exact stdin_meets_spec_text. Qed.
+
+(** Non-vacuity. *)
+Example C13_ex_text_run :       (* "h", e-acute, then the command finishes with "!" already available, then EOF *)
+  let i := mkSin Utf8 (Some (MText, true)) None false
+                 [SData [104]; SNotReady; SData [233]; SFinish; SData [33]; SEof; SData [120]] [[121]] in
+  stdin_guard i = true /\
+  stdin_model i = mkSobs (Some [104; 195; 169; 33]) 1 [104; 233; 33] true (Some [121]).
+Proof. vm_compute. split; reflexivity. Qed.
+
+Example C13_ex_bytes_guard :    (* byte-mode, whole characters per read: inside the guard *)
+  let i := mkSin Utf8 (Some (MBytes, false)) (Some true) true [SData [195; 169]; SData [97]; SEof; SFinish] [] in
+  stdin_guard i = true /\ stdin_model i = mkSobs (Some [195; 169; 97]) 0 [233; 97] true (Some []).
+Proof. vm_compute. split; reflexivity. Qed.
+
+Example C13_ex_witness :        (* the refutation witness: two U+FFFD (EF BF BD) instead of C3 A9 *)
+  stdin_model witness_c13 = mkSobs (Some [239; 191; 189; 239; 191; 189]) 1 [] true (Some []).
+Proof. vm_compute. reflexivity. Qed.
